@@ -21,7 +21,11 @@ EXTENDS Integers, Sequences, FiniteSets, TLC, Json, IOUtils
 
 Problems == JsonDeserialize(IOEnv.VF_PROBLEMS)
 
+CONSTANT Entries
+
 VARIABLES p, entry, fault, pc, k, outcome
+IsEvaluate == entry \in {"evaluate", "evaluate_cffi"}
+IsMethod == entry \in {"method", "method_cffi"}
 vars == <<p, entry, fault, pc, k, outcome>>
 
 Pb == Problems[p]
@@ -85,12 +89,13 @@ NonNegative == \A i \in 1..NP : \A d \in 1..Len(Arg(i).dims) : Arg(i).dims[d] >=
 Consistent ==
   /\ ~Positional /\ Supplied = ParamNames
   /\ \A i \in 1..NP : Arg(i).tensor /\ Len(Arg(i).modes) = Len(Params[i].modes)
-  /\ (entry = "method" => \A i \in 1..NP : Arg(i).modes = Params[i].modes /\ Arg(i).ordering = Params[i].ordering)
+  /\ (IsMethod => \A i \in 1..NP : Arg(i).modes = Params[i].modes /\ Arg(i).ordering = Params[i].ordering)
   /\ DimsAgree
 
 --------------------------------------------------------------------------
 (* The protocol, one step per check of the implementation *)
-Init == /\ p \in 1..Len(Problems) /\ entry \in {"method", "evaluate"}
+\* "method_cffi" / "evaluate_cffi" are the same protocols on the cffi back end (separate functions in the code)
+Init == /\ p \in 1..Len(Problems) /\ entry \in Entries
         /\ fault = NoFault /\ pc = "choose" /\ k = 0 /\ outcome = ""
 
 Choose == /\ pc = "choose"
@@ -102,8 +107,8 @@ Goto(l, i) == pc' = l /\ k' = i /\ UNCHANGED <<p, entry, fault, outcome>>
 
 Bind == /\ pc = "bind"
         /\ IF Positional THEN Raise("TypeError")
-           ELSE IF entry = "method" /\ Supplied # ParamNames THEN Raise("TypeError")
-           ELSE IF entry = "evaluate" THEN Goto("formats", 1) ELSE Goto("arg", 1)
+           ELSE IF IsMethod /\ Supplied # ParamNames THEN Raise("TypeError")
+           ELSE IF IsEvaluate THEN Goto("formats", 1) ELSE Goto("arg", 1)
 
 \* evaluate: reads argument.format of every supplied argument, then make_problem
 ReadFormats ==
